@@ -108,17 +108,33 @@ pub proof fn lemma_mr_merge_single<T: AbstractDomain + SizedDomain + HasTop>(c: 
     }
 }
 
+/// T's preconditions of the calls merge_inner makes for the offset x (compute_range_end: bytesize of the cells present;
+/// merge_or_merge_with_top: bytesize, merge of two equally sized cells, merge of a single cell with the new_top of its size)
+pub proof fn lemma_mr_merge_call_pre<T: AbstractDomain + SizedDomain + HasTop>(a: Map<i64, T>, b: Map<i64, T>, x: i64)
+    requires mr_domain_ok::<T>(), mr_merge_inputs_inv(a, b),
+    ensures
+        a.contains_key(x) ==> a[x].inv_spec() && a[x].bytesize_pre_spec() && a[x].bytesize_spec() <= MAXBYTES()
+            && a[x].merge_pre_spec(&T::new_top_spec(ByteSize(a[x].bytesize_spec() as u64))),
+        b.contains_key(x) ==> b[x].inv_spec() && b[x].bytesize_pre_spec() && b[x].bytesize_spec() <= MAXBYTES()
+            && b[x].merge_pre_spec(&T::new_top_spec(ByteSize(b[x].bytesize_spec() as u64))),
+        (a.contains_key(x) && b.contains_key(x) && a[x].bytesize_spec() == b[x].bytesize_spec()) ==> a[x].merge_pre_spec(&b[x]),
+{
+    reveal(mr_merge_inputs_inv);
+}
+
 /// the merge rule yields a well-formed region
 pub proof fn lemma_mr_merged_ok<T: AbstractDomain + SizedDomain + HasTop>(a: Map<i64, T>, b: Map<i64, T>)
-    requires mr_domain_ok::<T>(), mr_cells_ok(a), mr_cells_ok(b), mr_in_range(a), mr_in_range(b),
-    ensures mr_cells_ok(mr_merged(a, b)), mr_in_range(mr_merged(a, b)),
+    requires mr_domain_ok::<T>(), mr_cells_ok(a), mr_cells_ok(b), mr_in_range(a), mr_in_range(b), mr_cells_inv(a), mr_cells_inv(b), mr_merge_pre(a, b),
+    ensures mr_cells_ok(mr_merged(a, b)), mr_in_range(mr_merged(a, b)), mr_cells_inv(mr_merged(a, b)),
 {
     let r = mr_merged(a, b);
     assert forall |k: i64| #[trigger] r.contains_key(k) implies
         !r[k].is_top_spec() && r[k].bytesize_spec() > 0
         && r[k].bytesize_spec() == (if a.contains_key(k) { a[k].bytesize_spec() } else { b[k].bytesize_spec() })
-        && k + r[k].bytesize_spec() <= i64::MAX by {
+        && k + r[k].bytesize_spec() <= i64::MAX && r[k].inv_spec() by {
         assert(mr_merge_keeps(a, b, k));
+        if a.contains_key(k) { assert(a[k].inv_spec()); }
+        if b.contains_key(k) { assert(b[k].inv_spec()); }
     }
     assert forall |k1: i64, k2: i64| #[trigger] r.contains_key(k1) && #[trigger] r.contains_key(k2) && k1 < k2
         implies k1 + r[k1].bytesize_spec() <= k2 by {
@@ -134,7 +150,7 @@ pub proof fn lemma_mr_merged_ok<T: AbstractDomain + SizedDomain + HasTop>(a: Map
 
 /// merging a well-formed region with itself changes nothing (needs idempotence of the value merge)
 pub proof fn lemma_mr_merged_idem<T: AbstractDomain + SizedDomain + HasTop>(a: Map<i64, T>)
-    requires mr_merge_idem::<T>(), mr_cells_ok(a),
+    requires mr_merge_idem::<T>(), mr_cells_ok(a), mr_cells_inv(a),
     ensures mr_merged(a, a) =~= a,
 {
     assert forall |k: i64| a.contains_key(k) implies #[trigger] mr_merge_keeps(a, a, k) && mr_merge_val(a, a, k) == a[k] by {
@@ -167,6 +183,7 @@ pub proof fn lemma_mr_all_topped_is_topped<T: AbstractDomain + SizedDomain + Has
 pub proof fn lemma_mr_without_tops_ok<T: AbstractDomain + SizedDomain + HasTop>(m: Map<i64, T>)
     ensures
         (mr_layout_ok(m) && mr_in_range(m)) ==> mr_cells_ok(mr_without_tops(m)) && mr_in_range(mr_without_tops(m)),
+        mr_cells_inv(m) ==> mr_cells_inv(mr_without_tops(m)),
         mr_cells_ok(m) ==> mr_layout_ok(m) && mr_without_tops(m) =~= m,
 {
 }
@@ -174,12 +191,13 @@ pub proof fn lemma_mr_without_tops_ok<T: AbstractDomain + SizedDomain + HasTop>(
 /// merging every cell with the unknown value of its family keeps the layout (merge keeps the size of equally sized operands,
 /// top() has the size of its argument)
 pub proof fn lemma_mr_all_with_top_layout<T: AbstractDomain + SizedDomain + HasTop>(m: Map<i64, T>)
-    requires mr_domain_ok::<T>(), mr_cells_ok(m), mr_in_range(m),
+    requires mr_domain_ok::<T>(), mr_cells_ok(m), mr_in_range(m), mr_cells_inv(m),
     ensures
-        mr_layout_ok(mr_all_with_top(m)), mr_in_range(mr_all_with_top(m)),
+        mr_layout_ok(mr_all_with_top(m)), mr_in_range(mr_all_with_top(m)), mr_cells_inv(mr_all_with_top(m)),
         mr_without_tops(mr_all_with_top(m)) =~= mr_all_topped(m),
 {
     assert forall |k: i64| #[trigger] m.contains_key(k) implies mr_with_top(m[k]).bytesize_spec() == m[k].bytesize_spec() by {
+        assert(m[k].inv_spec());
         assert(m[k].top_spec().bytesize_spec() == m[k].bytesize_spec());
     }
 }
